@@ -58,3 +58,72 @@ export function betweenBuilds(host, entry) {
   host.bundler.bundle_v2(entry, {});
   host.bundler.diagnostics(entry, {});
 }
+
+// ------------------------------------------------------------------------------------------------
+// The whole ts-node directory as CommonJS (commandeer.ts, bundler.ts, bundle-to-disk.ts, project.ts)
+// with controllable stand-ins for what cannot exist offline: commander (options come from
+// globalThis.__beff_cli_opts), chokidar (watchers are recorded in globalThis.__watchers and fired by
+// the leg), the wasm package (calls are recorded in globalThis.__wasm_calls; what a build reads and
+// returns is decided by globalThis.__wasm_behaviour), the generated glue bundle.
+// ------------------------------------------------------------------------------------------------
+export function buildTsNode(work) {
+  const HOME = process.env.VERIF_HOME || "/verif";
+  const REPO = process.env.VERIF_REPO || "/repo";
+  const TS = path.join(REPO, "packages/beff-wasm/ts-node");
+  fs.rmSync(work, { recursive: true, force: true });
+  for (const d of ["ts-node/tsc-slim", "ts-node/generated", "pkg", "node_modules/chalk", "node_modules/@babel/code-frame", "node_modules/commander", "node_modules/chokidar"]) fs.mkdirSync(path.join(work, d), { recursive: true });
+  const toCjs = (name) => {
+    const stripped = path.join(work, name + ".stripped.js");
+    const r = spawnSync(path.join(HOME, "target/release/sim"), ["strip", path.join(TS, name + ".ts"), stripped], { encoding: "utf8" });
+    if (r.status !== 0 || !fs.existsSync(stripped)) throw new Error(`cannot strip ${name}.ts: ` + (r.stdout || "") + (r.stderr || ""));
+    let s = fs.readFileSync(stripped, "utf8");
+    s = s.replace(/import \* as (\w+) from "([^"]+)";/g, 'const $1 = require("$2");');
+    s = s.replace(/import \{([^}]*)\} from "([^"]+)";/g, (_m, names, from) => `const {${names.replace(/ as /g, ": ")}} = require("${from}");`);
+    s = s.replace(/import (\w+) from "([^"]+)";/g, 'const $1 = (require("$2").default ?? require("$2"));');
+    const exported = [];
+    s = s.replace(/export (const|class|function) (\w+)/g, (_m, k, n) => (exported.push(n), `${k} ${n}`));
+    s = s.replace(/export default /g, "module.exports.default = ");
+    s += "\n" + exported.map((n) => `module.exports.${n} = ${n};`).join("\n") + "\n";
+    if (/^\s*(import|export)\s/m.test(s)) throw new Error(`an import / export form the builder does not know is left in ${name}.ts`);
+    fs.writeFileSync(path.join(work, "ts-node", name + ".js"), s);
+    fs.rmSync(stripped);
+  };
+  for (const n of ["project", "bundler", "bundle-to-disk", "commandeer"]) toCjs(n);
+  fs.copyFileSync(path.join(TS, "tsc-slim/out.js"), path.join(work, "ts-node/tsc-slim/out.js"));
+  fs.writeFileSync(path.join(work, "ts-node/generated/bundle.js"), 'module.exports.default = { "codegen-v2.js": "/*glue*/", "parser.d.ts": "/*dts*/" };\n');
+  fs.writeFileSync(
+    path.join(work, "pkg/beff_wasm.js"),
+    `const rec = (name, args) => globalThis.__wasm_calls.push({ name, args });
+module.exports = {
+  init(v) { rec("init", [v]); },
+  update_file_content(f, c) { rec("update_file_content", [f, c]); },
+  bundle_to_string_v2(entry, settings) {
+    rec("bundle_to_string_v2", [entry, settings]);
+    const b = globalThis.__wasm_behaviour;
+    for (const f of b.reads()) globalThis.read_file_content(f);
+    return b.result();
+  },
+  bundle_to_diagnostics(entry, settings) { rec("bundle_to_diagnostics", [entry, settings]); return '{"diagnostics":[]}'; },
+};
+`,
+  );
+  fs.writeFileSync(path.join(work, "node_modules/chalk/index.js"), "const id = (x) => x; const h = { get: (_t, _k) => p, apply: (_t, _th, a) => a[0] }; const p = new Proxy(id, h); module.exports = p;\n");
+  fs.writeFileSync(path.join(work, "node_modules/chalk/package.json"), '{"name":"chalk","main":"index.js"}');
+  fs.writeFileSync(path.join(work, "node_modules/@babel/code-frame/index.js"), "module.exports.codeFrameColumns = (raw, loc, o) => String(raw).split('\\n').slice(loc.start.line - 1, loc.end.line).join('\\n') + ' <- ' + (o && o.message);\n");
+  fs.writeFileSync(path.join(work, "node_modules/@babel/code-frame/package.json"), '{"name":"@babel/code-frame","main":"index.js"}');
+  fs.writeFileSync(path.join(work, "node_modules/commander/index.js"), "class Command { name() { return this; } description() { return this; } option() { return this; } parse() { return this; } opts() { return globalThis.__beff_cli_opts; } }\nmodule.exports = { Command };\n");
+  fs.writeFileSync(path.join(work, "node_modules/commander/package.json"), '{"name":"commander","main":"index.js"}');
+  fs.writeFileSync(path.join(work, "node_modules/chokidar/index.js"), "module.exports = { watch(p) { const w = { on(ev, cb) { globalThis.__watchers.push({ path: p, ev, cb }); return w; } }; return w; } };\n");
+  fs.writeFileSync(path.join(work, "node_modules/chokidar/package.json"), '{"name":"chokidar","main":"index.js"}');
+  const require = createRequire(path.join(work, "ts-node/x.js"));
+  // one watch process = one evaluation of all four modules
+  const newProcess = () => {
+    for (const k of Object.keys(require.cache)) if (k.startsWith(path.join(work, "ts-node")) && !k.includes("tsc-slim")) delete require.cache[k];
+    delete require.cache[require.resolve(path.join(work, "pkg/beff_wasm.js"))];
+    for (const k of ["resolve_import", "emit_diagnostic", "read_file_content"]) delete globalThis[k];
+    globalThis.__watchers = [];
+    globalThis.__wasm_calls = [];
+    return require("./commandeer.js");
+  };
+  return { newProcess };
+}
